@@ -413,7 +413,11 @@ func check(prop, tier string) int {
 		}
 	}
 	if len(m.harnessErrs) > 0 {
-		trouble("harness errors (not violations):\n%s", strings.Join(m.harnessErrs, "\n---\n"))
+		n := len(m.harnessErrs)
+		if n > 3 {
+			m.harnessErrs = m.harnessErrs[:3]
+		}
+		trouble("%d harness errors (not violations), first ones:\n%s", n, strings.Join(m.harnessErrs, "\n---\n"))
 	}
 	if m.runs == 0 {
 		trouble("no runs executed")
